@@ -77,4 +77,7 @@ def collection_to_gff3(
     if add_sequences:
         print(GFF3Headers.FASTA_HEADER.value, file=gff3_handle)
         for collection in collections:
-            print(collection.sequence.to_fasta(), file=gff3_handle)
+            # the FASTA record must be named like column 1 of the rows and the ##sequence-region pragma
+            # (the Sequence of a sequence chunk carries the chunk's own id)
+            _, _, fasta_body = collection.sequence.to_fasta().partition("\n")
+            print(f">{collection.sequence_name}\n{fasta_body}", file=gff3_handle)
